@@ -147,16 +147,17 @@ class Array(Environment):
                 location = self.locations[self.position]
             colnum = 1
             for cell in cells:
-                if colnum < start or colnum > end:
-                    colnum += 1
+                colspan = 1
+                if cell.attributes:
+                    colspan = cell.attributes.get('colspan', 1)
+                # Skip the cells whose columns all lie outside of the span
+                if colnum + colspan - 1 < start or colnum > end:
+                    colnum += colspan
                     continue
                 cell.style['border-%s-style' % location] = 'solid'
                 cell.style['border-%s-color' % location] = 'black'
                 cell.style['border-%s-width' % location] = '1px'
-                if cell.attributes:
-                    colnum += cell.attributes.get('colspan', 1)
-                else:
-                    colnum += 1
+                colnum += colspan
 
     class hline(BorderCommand):
         """ Full horizontal line """
